@@ -19,6 +19,7 @@ import (
 
 	"verif/harness/canon"
 	"verif/harness/impl"
+	"verif/harness/wire"
 )
 
 type rawEdge struct {
@@ -61,6 +62,36 @@ func show(argv [][]byte) string {
 }
 
 var t0 = flag.Int64("t0", 1000, "model time origin (T0 of the MC instance)")
+var wireMode = flag.Bool("wire", false, "C03: send setup+path+command as ONE pipelined batch through Manager.Handle (net.Pipe) and decode the reply stream independently")
+var subst = flag.Bool("subst", false, "wire mode: every argument equal to \"b\" is sent as \"b\\r\\n\" (payloads with CR LF); replies are mapped back before matching")
+
+func substArgs(argv [][]byte) [][]byte {
+	if !*subst {
+		return argv
+	}
+	out := make([][]byte, len(argv))
+	for i, a := range argv {
+		if i > 0 && string(a) == "b" {
+			out[i] = []byte("b\r\n")
+		} else {
+			out[i] = a
+		}
+	}
+	return out
+}
+
+func unsubst(r impl.Reply) impl.Reply {
+	if !*subst {
+		return r
+	}
+	if r.K == "str" && string(impl.I2B(r.V)) == "b\r\n" {
+		r.V = impl.B2I([]byte("b"))
+	}
+	for i := range r.A {
+		r.A[i] = unsubst(r.A[i])
+	}
+	return r
+}
 
 // shiftAbs rewrites absolute-time arguments (SET ... EXAT t) from model time to real time.
 func shiftAbs(argv [][]byte, shift int64) [][]byte {
@@ -184,6 +215,7 @@ func main() {
 	enc := json.NewEncoder(out)
 	labelCount := map[string]int{}
 	tested, failed, execs, skippedSample := 0, 0, 0, 0
+	wireBatches, wireCmds := 0, 0
 	failSigs := map[string]bool{}
 	start := time.Now()
 
@@ -205,7 +237,7 @@ func main() {
 		sid := queue[0]
 		queue = queue[1:]
 		// check that the path really leads to the source state (once per state)
-		if len(paths[sid]) > 0 || sid == initID {
+		if !*wireMode && (len(paths[sid]) > 0 || sid == initID) {
 			srv, shift := replay(paths[sid])
 			if d := canon.DiffState(model(sid), srv, shift); d != "" {
 				// should not happen: the edge into sid was verified; report and do not explore from here
@@ -237,9 +269,36 @@ func main() {
 					continue
 				}
 			}
-			srv, shift := replay(paths[sid])
-			got := srv.Exec(shiftAbs(ce.argv, shift))
-			execs++
+			var srv *impl.Srv
+			var shift int64
+			var got impl.Reply
+			wireProblem := ""
+			if *wireMode {
+				shift = time.Now().Unix() - *t0
+				var batch [][][]byte
+				for _, c := range setup {
+					batch = append(batch, substArgs(c))
+				}
+				for _, st := range paths[sid] {
+					batch = append(batch, substArgs(shiftAbs(st.argv, shift)))
+				}
+				batch = append(batch, substArgs(shiftAbs(ce.argv, shift)))
+				wc := wire.NewPipe(1)
+				res := wc.Batch(batch, 3*time.Second)
+				wc.Close()
+				execs += len(batch)
+				wireBatches++
+				wireCmds += len(batch)
+				if res.Problem != "" {
+					wireProblem = res.Problem + ": " + res.Detail
+				} else {
+					got = unsubst(res.Replies[len(res.Replies)-1])
+				}
+			} else {
+				srv, shift = replay(paths[sid])
+				got = srv.Exec(shiftAbs(ce.argv, shift))
+				execs++
+			}
 			tested++
 			var labels []string
 			var pats []canon.Pat
@@ -262,6 +321,10 @@ func main() {
 				}
 				failSigs[sig] = true
 			}
+			if wireProblem != "" {
+				report(mk("wire", strings.SplitN(wireProblem, ":", 2)[0], wireProblem))
+				continue
+			}
 			if got.K == "panic" {
 				report(mk("panic", got.E, got.Msg))
 				continue
@@ -280,6 +343,11 @@ func main() {
 			okT := -1
 			diff := ""
 			for _, o := range matched {
+				if *wireMode { // the in-process tour compares states; the wire tour checks framing, count, order and content of replies
+					okT = o.t
+					labelCount[o.b]++
+					break
+				}
 				d := canon.DiffState(model(o.t), srv, shift)
 				if d == "" {
 					okT = o.t
@@ -332,6 +400,7 @@ func main() {
 		"states": len(stateJSON), "states_reached": nReached, "edges": nEdges, "edges_tested": tested,
 		"edges_failed": failed, "execs": execs, "labels_total": len(allLabels), "labels_passed": len(labs),
 		"skipped_by_sampling": skippedSample, "wall_s": time.Since(start).Seconds(),
+		"wire_batches": wireBatches, "wire_commands": wireCmds,
 	}
 	b, _ := json.Marshal(sum)
 	fmt.Println("SUMMARY " + string(b))
